@@ -46,6 +46,9 @@ func NewSparseReal64Vector(indices []int, values []float64, n int) *SparseReal64
   }
   r := nilSparseReal64Vector(n)
   for i, k := range indices {
+    if k < 0 {
+      panic("negative index")
+    }
     if k >= n {
       panic("index larger than vector dimension")
     }
